@@ -436,12 +436,16 @@ def run_specs(specs):
             if node is None:
                 fn.unsupported = "function {} not found in {}".format(name, item["file"])
             else:
-                pnames = [a.arg for a in node.args.args] + ([node.args.vararg.arg] if node.args.vararg else [])
+                pnames = [a.arg for a in node.args.args] + ([node.args.vararg.arg] if node.args.vararg else []) \
+                    + [a.arg for a in node.args.kwonlyargs]
                 if pnames != [p for p, _ in fn.params]:
                     fn.unsupported = "signature changed: ({}) in the source".format(", ".join(pnames))
                 else:
                     ps = [a.arg for a in node.args.args]
                     fn.defaults = dict(zip(reversed(ps), reversed(node.args.defaults)))
+                    for a, d in zip(node.args.kwonlyargs, node.args.kw_defaults):
+                        if d is not None:
+                            fn.defaults[a.arg] = d
                     translate_function(reg, fn, node, declared_ret=item.get("ret"))
             reg.functions[name] = fn
             reg.order.append(fn)
